@@ -33,7 +33,8 @@ struct Env {
     using CheckedPoly = vp::Checked<PolyKernel, D>;
     using SetTree = TbfTree<Real, Real, NV, vp::SetVec, 1, vp::SetVec, vp::SetVec, Space>;
     using PolyTree = TbfTree<Real, Real, NV, uint64_t, 1, PV, PV, Space>;
-    static const char* orderingName() { return PER ? "morton-periodic" : "morton"; }
+    static constexpr bool IsHilbert = !std::is_same<SpaceT, tbx::Morton<Real, D, PER>>::value;
+    static const char* orderingName() { return IsHilbert ? "hilbert" : (PER ? "morton-periodic" : "morton"); }
 };
 
 //---------------------------------------------------------------- lattice embedding for P-poly
